@@ -54,8 +54,19 @@ def run_case(cs, ctx):
     text = sp.render(spec, rng=rng, second_side=True, noise=True)
     path = en.write_file(ctx.workdir, text)
     case.update({'spec': spec, 'file': text})
+    presolved = cs % 6 == 1 and spec.get('shape') not in ('huge_ids', 'long_ranks', 'big')
     try:
-        s = Solver(['-f', path, '-na', str(spec['na']), '-twopl'])
+        if presolved:
+            # the same checker after the Model went through a solve with closures and stability constraints
+            s = Solver(['-f', path, '-na', str(spec['na']), '-twopl', '-pc', '-stab'] + rng.choice([[], ['-maxsize', '1'], ['-minsize', '1']]))
+            try:
+                s.solve()
+                s.get_results()
+                ctx.cnt('models_presolved_with_pc_and_stab')
+            except Exception:
+                ctx.cnt('unobservable_presolve_failed')
+        else:
+            s = Solver(['-f', path, '-na', str(spec['na']), '-twopl'])
     except BaseException as e:
         ctx.cnt('unobservable_reader_failed')
         return
